@@ -317,3 +317,8 @@ BOUNDS = {
 }
 OUTSIDE = ["4 tasks with 2 suspensions and no lock (2.6*10^5 schedules)", "while a delete races a computation only value/liveness invariants are asserted (at-most-once is asserted per cached value when no delete intervenes)"]
 NONTRIVIAL_RULE = "histories: >=1 getter run and >=2 operations; schedules: >=1 context switch"
+
+MANIFEST = {
+    "text": 'Sequential histories against a reference model plus bounded model checking of concurrent awaiters with/without lock type, shared placeholders, a deleting task and cancellation: at most one getter run per cached value under a lock, one value to all, nothing cached by failed/cancelled runs, nothing lost without delete. Nothing is claimed outside the bounds listed in the evidence file.',
+    "note": 'Trusted: CrossHair 0.0.110 (with short-circuiting off and a refined callable() model), z3 5.1.0, the harness oracles. While a delete races a computation only value/liveness/run-count invariants are asserted.',
+}
